@@ -85,6 +85,8 @@ def gen_case(rng):
             continue
         events.append(["line", c] + pending[c].pop(0))
     case = {"events": events, "n_clients": nclients}
+    if rng.random() < 0.15:
+        case["werror"] = True        # the application runs with -W error: the tracker inherits the interpreter flags
     if fs_ops:
         # paths that do not exist yet when the tracker starts (registered before they are created, or never created)
         case["absent"] = sorted(n for n in FILES + FOLDERS if rng.random() < (0.5 if n in focus else 0.2))
@@ -493,6 +495,8 @@ def run_case(case):
         saved = sys.stdin, sys.stdout
         sys.stdin = io.StringIO(); sys.stdout = io.StringIO()
         raised = None
+        if case.get("werror"):
+            warnings.simplefilter("error")
         try:
             rt.main(-1)
         except BaseException as e:  # noqa
@@ -534,7 +538,7 @@ def run_case(case):
                 "switches": 0, "sim_time": 0.0,
                 "faults": {k: v for k, v in {"client_killed": sum(1 for e in case["events"] if e[0] == "kill"),
                                               "malformed_or_unbalanced_line": sum(1 for e in case["events"] if e[0] == "line" and (e[2] == "RAW" or e[3] in ("nope", "decoy", "decoydir"))),
-                                              "client_side_create_or_remove": fs_events[0],
+                                              "client_side_create_or_remove": fs_events[0], "warnings_are_errors_in_the_tracker": 1 if case.get("werror") else 0,
                                               "registered_path_absent_at_start": len(case.get("absent") or ())}.items() if v},
                 "probes": {"refcount_zero_while_others_held": state["zero_while_other_held"], "killed_client_left_registrations": state["killed_holding"]},
                 "nontrivial": bool(state["zero_while_other_held"] or state["killed_holding"]),
